@@ -111,7 +111,7 @@ def check_tool(case):
         parts = []
         for j in src:
             node = interp.to_node(j)
-            parts.append(fmt(node, indent=None))
+            parts.append(fmt(node, indent=None, meta=case.get('premeta') or None))
             g = layout.interpret(Tree(node), m)
             expected.append(ref_errors(list(g.triples), g.top, spec))
         texts.append('\n\n'.join(parts) + '\n')
@@ -145,7 +145,8 @@ def check_tool(case):
             if not any(v.startswith(ctx) and v[len(ctx):] in per[t] for v in vals):
                 f.append(('error-metadata-missing', '%s: graph %d lacks an error line for %r; has %r' % (lab, k, t, vals)))
                 break
-        if not per and not gen and vals:
+        stale = [v for k_, v in (case.get('premeta') or {}).items() if k_.startswith('error-')]
+        if not per and not gen and [v for v in vals if v not in stale]:
             f.append(('error-metadata-spurious', '%s: compliant graph %d has %r' % (lab, k, vals)))
     if case.get('subprocess'):
         sub = cli.run_subprocess(argv, stdin)
@@ -251,7 +252,8 @@ def _tool_cases(draw):
         sources.append(gs)
     return {'k': 'tool', 'sources': sources, 'stdin': stdin, 'model': spec,
             'extra': draw(st.sampled_from([[], [], ['--indent', 'no'], ['--compact'], ['--canonicalize-roles'], ['--triples'], ['--reify-attributes']])),
-            'subprocess': draw(st.integers(0, 49)) == 0}
+            'subprocess': draw(st.integers(0, 49)) == 0,
+            'premeta': draw(st.sampled_from([None, None, None, {'error-1': 'stale remark'}, {'id': '3', 'error-2': '(x :y z) invalid role'}]))}
 
 
 def _chain_chunks(tier):
